@@ -168,6 +168,21 @@ def handleChain (toks : List String) : Option String :=
         match ok, rargs with
         | true, .reg a0 :: y :: more => some ("code=" ++ ",".intercalate ((emitOpreduceCode op opim nregs a0 y more).map showInstr))
         | _, _ => some "code=-"
+      | .compreduce op opim invert =>
+        let kinds := ops.map (·.2)
+        let nregs := (kinds.filter (· == .reg)).length
+        -- first and middle operands registers (parameter k = register k), the last a register or an immediate
+        let front := kinds.dropLast
+        match kinds.getLast?, front.all (· == .reg), front.length with
+        | some lastK, true, k + 1 =>
+          let lastArg : Option RArg := match lastK with
+            | .reg => some (.reg (k + 1))
+            | .const (some i) => if opim.isSome then some (.imm i) else none
+            | .const none => none
+          match lastArg with
+          | some la => some ("code=" ++ ",".intercalate ((emitCompreduceCode op opim invert nregs 0 ((List.range k).map (· + 1)) la).map showInstr))
+          | none => some "code=-"
+        | _, _, _ => some "code=-"
       | _ => some "code=-"
     | _, _ => some "bad-request"
   | _ => none
